@@ -294,5 +294,68 @@ def run(ctx):
         if leaked:
             ctx.violation("disk-cut-lock-leak", "entry cut at byte %d: lock still held after the with-block (%s)" % (n, outcome), dict(cut=n, size=len(blob), outcome=outcome))
     ctx.extra["disk_cuts"] = len(blob)
+    real_processes(ctx, keys)
     ctx.assumptions += ["one virtual scheduling point per lock acquisition, sleep, inner-cache operation and body boundary; code between two points runs atomically (as in the property's stated granularity)",
                         "callers are threads; caller processes share the same code path through the injected lock/list"]
+
+
+# ---------------------------------------------------------------- real processes (schedule-independent observables only)
+def _proc_main(args):
+    import os, time
+    d, arr, lock, who, prog, keys = args
+    import coba.context.cachers as C
+    cc = C.ConcurrentCacher(C.DiskCacher(d), arr, lock)
+    out = []
+    for op in prog:
+        key = keys[op["k"]]
+        if op["t"] == "rmv":
+            cc.rmv(key); out.append(("rmv", op["k"], True)); continue
+        def getter(key=key):
+            with open(os.path.join(d, "getter-%s-%s-%d" % (key, who, time.time_ns())), "w"): pass   # one marker file per getter run
+            return expected_value(key)
+        with cc.get_set(key, getter) as f:
+            got = [x.rstrip("\n") for x in f]
+        out.append(("gs", op["k"], got == expected_value(key)))
+    return out
+
+
+def real_processes(ctx, keys):
+    """Spawned processes sharing a RawArray + Lock exactly as CobaMultiprocessor sets them up: every value read is
+    complete, the lock table is clear afterwards, and without removals the getter ran at most once per key."""
+    import multiprocessing as mp
+    from ctypes import c_short
+    sp = mp.get_context("spawn")
+    rng = random.Random(ctx.seed + 19)
+    for rnd in range(ctx.pick(2, 8)):
+        d = os.path.join(ctx.scratch, "rp%d" % rnd); os.makedirs(d, exist_ok=True)
+        arr = sp.RawArray(c_short, [0] * 2 ** 16); lock = sp.Lock()
+        with_rmv = rnd % 2 == 1
+        progs = []
+        for w in range(3):
+            prog = [dict(t="gs", k=rng.choice(["k1", "k2", "k3"])) for _ in range(3)]
+            if with_rmv: prog.insert(rng.randrange(4), dict(t="rmv", k=rng.choice(["k1", "k2"])))
+            progs.append(prog)
+        q = sp.Queue()
+        ps = [sp.Process(target=_proc_entry, args=(q, d, arr, lock, w, progs[w], keys)) for w in range(3)]
+        for p in ps: p.start()
+        outs = []
+        for _ in ps:
+            try: outs.append(q.get(timeout=300))
+            except Exception: ctx.violation("real-process-hang", "a caller process did not finish within 300 s", dict(progs=progs)); break
+        for p in ps: p.join(timeout=30)
+        ctx.case("realproc%d" % rnd)
+        if any(not ok for o in outs for (_, _, ok) in o):
+            ctx.violation("real-process-partial", "a caller process read an incomplete value", dict(progs=progs, outs=outs))
+        if any(v != 0 for v in arr):
+            ctx.violation("real-process-lock-leak", "lock table not clear after all caller processes left", dict(progs=progs))
+        if not with_rmv:
+            from collections import Counter
+            runs = Counter(f.split("-")[1] for f in os.listdir(d) if f.startswith("getter-"))
+            if any(n > 1 for n in runs.values()):
+                ctx.violation("real-process-getter-twice", "the getter ran more than once for a key that stayed cached: %s" % dict(runs), dict(progs=progs))
+    ctx.extra["real_process_rounds"] = ctx.pick(2, 8)
+
+
+def _proc_entry(q, d, arr, lock, who, prog, keys):
+    q.put(_proc_main((d, arr, lock, who, prog, keys)))
+
